@@ -48,8 +48,23 @@ package ebpf
 //@   modifies nothing
 //@   ensures result == (l.circuitIDSubscribers != nil)
 
+// ---- derived keys (C06): each is the function the kernel side computes ----
+// subscriber_pools is keyed by mac_to_u64(chaddr) in bpf/dhcp_fastpath.c: the
+// six address bytes composed most-significant first.
 //@ func MACToUint64
 //@   modifies nothing
+//@   ensures len(mac) < 6 ==> result == 0
+//@   ensures len(mac) >= 6 ==> result == mac[0]*1099511627776 + mac[1]*4294967296 + mac[2]*16777216 + mac[3]*65536 + mac[4]*256 + mac[5]
+
+//@ loop MACToUint64#1
+//@   invariant 0 <= i && i <= 6 && len(mac) >= 6
+//@   invariant i == 0 ==> result == 0
+//@   invariant i == 1 ==> result == mac[0] && result <= 255
+//@   invariant i == 2 ==> result == mac[0]*256 + mac[1] && result <= 65535
+//@   invariant i == 3 ==> result == mac[0]*65536 + mac[1]*256 + mac[2] && result <= 16777215
+//@   invariant i == 4 ==> result == mac[0]*16777216 + mac[1]*65536 + mac[2]*256 + mac[3] && result <= 4294967295
+//@   invariant i == 5 ==> result == mac[0]*4294967296 + mac[1]*16777216 + mac[2]*65536 + mac[3]*256 + mac[4] && result <= 1099511627775
+//@   invariant i == 6 ==> result == mac[0]*1099511627776 + mac[1]*4294967296 + mac[2]*16777216 + mac[3]*65536 + mac[4]*256 + mac[5] && result <= 281474976710655
 
 // ---- loader.go: fast-path cache writers as seen by the DHCP handlers (C02) ----
 // Frames only: these functions write kernel maps and nothing of the Go state.
@@ -73,5 +88,12 @@ package ebpf
 //@ func HashCircuitID
 //@   modifies nothing
 
+// IPv4 words stored in map values (PoolAssignment.AllocatedIP, IPPool.Network /
+// Gateway / DNS*, ServerConfig.ServerIP) are copied by bpf/dhcp_fastpath.c into
+// the reply as they are (yiaddr = allocated_ip, ...). Map values are marshalled
+// in native byte order, so the word must carry the address bytes in network
+// order in memory: on the little-endian hosts the programs are verified for,
+// the little-endian composition of the four bytes.
 //@ func IPToUint32
 //@   modifies nothing
+//@   ensures len(ip) == 4 ==> result == ip[0] + 256*ip[1] + 65536*ip[2] + 16777216*ip[3]
